@@ -245,9 +245,9 @@ PROPS["C03"] = dict(level="model_checking", explanation="every state-changing st
 
 GATE_CALLEES = ["iauth_accept", "iauth_soft_done"]
 IJ("C02.check_request", "C02", "h_check_request", GATE_CALLEES, functions=["iauth_check_request"], extra_props=("C01", "C03"))
-IJ("C01.accept", "C01", "h_accept", ["iauth_send", "notify_pre_registered", "parse_registered"], functions=["iauth_accept"],
+IJ("C01.accept", "C01", "h_accept", ["iauth_send", "notify_pre_registered", "parse_registered"], functions=["iauth_accept"], extra_props=("C05",),
    cbmc=[])
-IJ("C01.kill", "C01", "h_kill", ["iauth_send", "parse_registered"], functions=["iauth_kill"], cbmc=[])
+IJ("C01.kill", "C01", "h_kill", ["iauth_send", "parse_registered"], functions=["iauth_kill"], cbmc=[], extra_props=("C05",))
 IJ("C01.quietly_kill", "C01", "h_kill", ["iauth_send", "parse_registered"], functions=["iauth_quietly_kill"], defines=["QUIET"],
    cbmc=[])
 IJ("C01.soft_done", "C01", "h_soft_done", ["iauth_send"], functions=["iauth_soft_done"], cbmc=[])
@@ -256,7 +256,7 @@ IJ("C03.timeout", "C03", "h_timeout", ["iauth_check_request"], functions=["iauth
 HANDLER_CALLEES = ["iauth_check_request", "iauth_send"]
 for h, fn in (("hostname", "parse_hostname"), ("no_hostname", "parse_no_hostname"), ("nick", "parse_nick"), ("ident", "parse_ident"),
               ("user_info", "parse_user_info"), ("password", "parse_password"), ("hurry_up", "parse_hurry_up")):
-    IJ("C03.parse_" + h, "C03", "h_parse_" + h, HANDLER_CALLEES, functions=[fn], extra_props=("C01",),
+    IJ("C03.parse_" + h, "C03", "h_parse_" + h, HANDLER_CALLEES, functions=[fn], extra_props=("C01", "C06"),
        cbmc=["--unwindset", "copy_ok.0:81,strncpy.0:81"])
 
 PROPS["C10"] = dict(level="proof", explanation="table bookkeeping: real handlers over the real set.c with the real disposal callback; timers by contract (S3)")
@@ -272,21 +272,21 @@ IJ("C10.parse_new_client", "C10", "h_parse_new_client", ["iauth_send"] + SETM, a
 XQ_CALLEES = ["iauth_validate_request", "iauth_routing", "iauth_kill", "iauth_challenge", "iauth_user_mode", "iauth_check_request",
               "iauth_x_query", "iauth_send"] + SETM
 XQ_UNW = ["--unwind", "5", "--unwindset", "bytes_eq.0:513,strcmp.0:5,strncmp.0:8,memcmp.0:70,account_is.0:66,iauth_xquery_set_account.0:66,iauth_xquery_set_account.1:67,memset.0:60"]
-PROPS["C04"] = dict(level="proof", explanation="reply routing: validate/routing round trip and the empty frame of non-awaited replies")
-PROPS["C05"] = dict(level="proof", explanation="verdict content: per reply kind postconditions of the reply handler and of iauth_accept")
+PROPS["C04"] = dict(level="model_checking", explanation="reply routing: validate/routing round trip and the empty frame of non-awaited replies")
+PROPS["C05"] = dict(level="model_checking", explanation="verdict content: per reply kind postconditions of the reply handler and of iauth_accept")
 IJ("C03.xq_x_reply", "C03", "h_xq_x_reply", XQ_CALLEES, harness="harness/h_iauth_xq.c", functions=["iauth_xquery_x_reply", "iauth_xquery_x_unlinked", "iauth_xquery_set_account", "iauth_xquery_unref"],
    extra_props=("C02", "C04", "C05"), cbmc=XQ_UNW, assumptions=SET_ASSUME, bound="service table of 3 slots, names of <= 2 bytes, reply text <= 39 bytes", cls="bounded", timeout=1800, cost=20)
 
-PROPS["C06"] = dict(level="proof", explanation="query builder and password shape check by per-function postconditions over the ghost query log; bounded copies in the core handlers")
+PROPS["C06"] = dict(level="model_checking", explanation="query builder and password shape check by per-function postconditions over the ghost query log; bounded copies in the core handlers")
 IJ("C06.xq_check", "C06", "h_xq_check", XQ_CALLEES, harness="harness/h_iauth_xq.c", functions=["iauth_xquery_check", "iauth_xquery_user_info"],
    extra_props=("C02", "C03"), cbmc=["--unwind", "9", "--unwindset", "bytes_eq.0:513,strcmp.0:5,strncmp.0:8,model_x_query.0:13,model_x_query.1:12,spec_username.0:13,spec_username.1:11,spec_username.2:11,spec_username.3:11,strncpy.0:13"],
-   assumptions=SET_ASSUME, bound="service table of 2 slots", cls="bounded", timeout=2400, cost=20, defines=["NSRV=2"])
+   assumptions=SET_ASSUME, bound="service table of 2 slots", cls="bounded", timeout=2400, cost=20, defines=["NSRV=2"], solver=os.environ.get("XQSOLVER", "kissat"), mem=24)
 
-PROPS["C09"] = dict(level="proof", explanation="single formatter iauth_send proved against the line format with the printf model; address text via C12; log channel separation in C18/C09.log")
+PROPS["C09"] = dict(level="model_checking", explanation="single formatter iauth_send proved against the line format with the printf model; address text via C12; log channel separation in C18/C09.log")
 IO_UNW = ["--unwind", "14", "--unwindset", "put_str.0:41,fputs.0:130,iauth_send.0:5,memset.0:600"]
 for _k in range(22):
     IJ("C09.send.fmt%02d" % _k, "C09", "h_send", SETM, harness="harness/h_iauth_io.c", stubs=IAUTH_STUBS + ["stubs/stdout_model.c"], functions=["iauth_send"],
-       cbmc=IO_UNW, unwind_rules=[("h_send", r"i < 128", 129), ("h_send", r"i < (40|IRC_NTOP_MAX)", 42), ("h_send", r"i < (11|12|6);", 13), ("h_send", r"f\[i\]", 14)], cls="bounded", bound="string arguments of <= 11 bytes; one job per format string used by the daemon", defines=["KIND=%d" % _k], timeout=1800, cost=4)
+       cbmc=IO_UNW, unwind_rules=[("h_send", r"i < 128", 129), ("h_send", r"i < (40|IRC_NTOP_MAX)", 42), ("h_send", r"i < (11|12|6);", 13), ("h_send", r"f\[i\]", 14)], cls="bounded", bound="string arguments of <= 11 bytes, address text of <= 8 bytes; one job per format string used by the daemon", defines=["KIND=%d" % _k, "ADDR_MAX=8"], timeout=1800, cost=4, solver="kissat")
 IJ("C04.routing_roundtrip", "C04", "h_routing_roundtrip", SETM, harness="harness/h_iauth_io.c", stubs=IAUTH_STUBS + ["stubs/stdout_model.c"],
    functions=["iauth_routing", "iauth_validate_request"], cbmc=IO_UNW, assumptions=SET_ASSUME + ["S2 strtol/strtoul are CBMC's library models"], timeout=1800, cost=10)
 IJ("C04.validate_any", "C04", "h_validate_any", SETM, harness="harness/h_iauth_io.c", stubs=IAUTH_STUBS + ["stubs/stdout_model.c"],
@@ -315,7 +315,7 @@ def _c08_jobs(tier, seed):
 
 GENERATORS.append(_c08_jobs)
 
-PROPS["C11"] = dict(level="proof", explanation="rule criteria conjunction, class/username effects, first-match scan; glob semantics are libc's (uninterpreted); rule compilation order by C19 + conf_object_cmp")
+PROPS["C11"] = dict(level="model_checking", explanation="rule criteria conjunction, class/username effects, first-match scan; glob semantics are libc's (uninterpreted); rule compilation order by C19 + conf_object_cmp")
 CL_STUBS = [x for x in IAUTH_STUBS if "fnmatch" not in x]
 for _cn, _tiers, _unw in ((8, ("quick",), "12"), (70, ("thorough",), "72")):
     IJ("C11.rule_check.name%d" % (_cn - 1), "C11", "h_rule_check", ["iauth_xreply_ok", "iauth_trust_username", "iauth_send", "iauth_check_request"] + SETM,
@@ -335,9 +335,9 @@ def _c20_jobs(tier, seed):
     return [dict(id="C20.graph.M%d" % m, prop="C20", cls="bounded", bound="%d stub modules, every dependency matrix (2^%d graphs), 1-2 modules named in the configuration in any order" % (m, m * m),
                  srcs=["src/common.c"], stubs=["stubs/tramp_set.c", "stubs/printf_model.c"], harness="harness/h_module.c", entry="h_module_graph",
                  defines=["MODS=%d" % m, "SET_MODEL_MAX=%d" % (m + 1)], checks=["ptr"],
-                 remove_bodies=["xmalloc", "xrealloc", "reg_exit_func"], late_stubs=[],
+
                  cbmc=["--unwind", str(m + 2), "--unwinding-assertions", "--object-bits", "10", "--no-malloc-may-fail",
-                       "--unwindset", "strcasecmp.0:4,strlen.0:4,strcpy.0:4,vsnprintf.0:12,vsnprintf.1:6,const_string_vector_remove.0:%d" % (2 * m + 2)],
+                       "--unwindset", "sm_dispose:2,module_cleanup:2,strcasecmp.0:4,strlen.0:4,strcpy.0:4,vsnprintf.0:12,vsnprintf.1:6,const_string_vector_remove.0:%d" % (2 * m + 2)], solver="kissat",
                  functions=["module_load_list", "module_load", "module_depends", "module_dfs", "module_close_all", "module_cleanup", "module_get", "const_string_vector_remove"],
                  assumptions=["S4 dlopen/dlsym/dlclose by model: stub modules whose constructors call the real module_depends",
                               "module table through the set contract (spec/set_model.h), discharged for set.c in C19"],
@@ -345,3 +345,54 @@ def _c20_jobs(tier, seed):
 
 
 GENERATORS.append(_c20_jobs)
+
+# =========================================================================== config.c (C14, C15, C16)
+CFG_STUBS = ["stubs/tramp_set.c", "stubs/printf_model.c", "stubs/strto_model.c"]
+CFG_RM = []
+
+
+def CJ(id, prop, entry, remove=(), extra_props=(), **kw):
+    d = dict(id=id, prop=prop, cls="bounded", srcs=["src/common.c"], stubs=CFG_STUBS, harness="harness/h_config.c", entry=entry,
+             remove_bodies=CFG_RM + list(remove), late_stubs=["stubs/tramp_config.c"], checks=["ptr", "shift"], solver="kissat",
+             cbmc=["--unwind", "10", "--unwinding-assertions", "--object-bits", "10", "--no-malloc-may-fail"] + kw.pop("cbmc", []),
+             unwind_rules=[("ctype_init", r"token_chars\[ii\]", 32), ("ctype_init", r"hex_digits\[ii\]", 18)], unwind_rules_optional=True,
+             timeout=1800, cost=5, assumptions=["set.c through its contract (spec/set_model.h, C19)", "longjmp never returns; setjmp modelled by its two kinds of return"])
+    d.update(kw)
+    J(**d)
+    for p2 in extra_props:
+        d2 = dict(d); d2["id"] = id.replace(prop + ".", p2 + ".", 1); d2["prop"] = p2
+        J(**d2)
+
+
+PROPS["C14"] = dict(level="model_checking", explanation="tokenizer memory safety on every buffer up to the stated length; conf_read's control flow: no merge, no notification on any error return")
+PROPS["C15"] = dict(level="model_checking", explanation="per node kind: value after load, hook exactly on change (strings typed, lists), ownership of moved host/service pairs")
+PROPS["C16"] = dict(level="model_checking", explanation="typed value parsers against reference readings; quoted strings byte for byte; bounded lengths; grammar-level for-all over renderings is NOT decided")
+CJ("C16.typed_values.len7", "C16", "h_typed_values", functions=["conf_parse_boolean", "conf_parse_interval", "conf_parse_volume"], bound="value text of <= 7 bytes",
+   cbmc=["--unwindset", "strcmp.0:10"])
+CJ("C16.string_value.len7", "C16", "h_string_value", functions=["conf_parse_string_value"], extra_props=("C15",), bound="value text of <= 7 bytes", cbmc=["--unwindset", "strcmp.0:10,memcmp.0:10"])
+CJ("C15.string_list.len3", "C15", "h_string_list_value", functions=["conf_set_string_list_value"], extra_props=("C16",), bound="lists of <= 3 one-byte items")
+CJ("C14.conf_read", "C14", "h_conf_read", remove=["conf_read_file", "conf_parse_entry", "conf_replace_value"], functions=["conf_read"], extra_props=("C15",),
+   cls="proof", bound="")
+CJ("C14.parse_string.len6", "C14", "h_parse_string", functions=["conf_parse_string", "conf_parse_whitespace"], extra_props=("C16",), bound="file buffers of <= 6 bytes",
+   cbmc=["--unwindset", "memset.0:40"], defines=["TOK_LEN=6"], mem=24, solver="minisat")
+CJ("C14.parse_whitespace.len8", "C14", "h_parse_whitespace", functions=["conf_parse_whitespace"], extra_props=("C16",), bound="file buffers of <= 8 bytes")
+CJ("C15.replace_inaddr", "C15", "h_replace_inaddr", functions=["conf_replace_value"], extra_props=("C14",), bound="", cls="proof",
+   cbmc=["--unwind", "4", "--unwindset", "strcasecmp.0:4,conf_replace_value:1,conf_object_cleanup:2,model_set_clear:2,sm_dispose:2,set_clear:2"])
+
+PROPS["C17"] = dict(level="model_checking", explanation="service-table rebuild from any previous table; rule compilation; hook delivery of the merge (known finding: in-place edits)")
+IJ("C17.xq_services_changed", "C17", "h_xq_services_changed", ["iauth_send", "iauth_check_request"] + SETM, harness="harness/h_iauth_xq.c",
+   functions=["iauth_xquery_services_changed", "iauth_xquery_config_service", "iauth_xquery_unref"], cls="bounded", bound="section of <= 2 services, previous table of <= 2 slots",
+   cbmc=["--unwind", "6", "--unwindset", "strcmp.0:4,strcasecmp.0:12,strlen.0:4,strcpy.0:4,memset.0:120"], assumptions=SET_ASSUME, timeout=1800, cost=8, solver="kissat", mem=30)
+
+# =========================================================================== log.c (C18, C09)
+PROPS["C18"] = dict(level="model_checking", explanation="severity-set parser against the mathematical set for every 1-2 item expression; message fan-out per destination; rescan not under contract")
+LOG_STUBS = ["stubs/tramp_set.c", "stubs/printf_model.c", "stubs/strto_model.c", "stubs/stdout_model.c"]
+for _e, _fn, _un in (("h_log_sevset", ["log_parse_type_sevset"], "strcpy.0:24,h_log_sevset.0:8,h_log_sevset.1:8,h_log_sevset.2:8,h_log_sevset.3:8,strcasecmp.0:9,strchr.0:24,strcmp.0:4,strlen.0:24,put.0:9,memset.0:300,strdup.0:24"),
+                     ("h_log_message", ["log_vmessage", "log_message"], "vsnprintf.0:3,vsnprintf.1:6,memset.0:64")):
+    for _p in (("C18",) if _e == "h_log_sevset" else ("C18", "C09")):
+        J(id="%s.%s" % (_p, _e[2:]), prop=_p, cls="bounded" if _e == "h_log_sevset" else "proof",
+          bound="every expression of 1-2 items over all 6 operators and 7 names, plus * and the dot-less form: 1808 concrete cases, exhaustive" if _e == "h_log_sevset" else "",
+          srcs=["src/common.c", "src/config.c"], stubs=LOG_STUBS, harness="harness/h_log.c", entry=_e, checks=["ptr", "shift"],
+          cbmc=["--unwind", "8", "--unwinding-assertions", "--object-bits", "10", "--no-malloc-may-fail", "--unwindset", _un],
+          functions=_fn, assumptions=["set.c through its contract (spec/set_model.h, C19)", "S1 stdio: only the target stream of a write is modelled"], timeout=2400, cost=5,
+          solver="kissat", mem=30)
